@@ -130,7 +130,7 @@ theorem exec_complete (P : Prog V) (fl : Worker → Flags) (res₀ : Task → Op
   have hc := fsteps_cinv P fl n W sdeps evs _ s Scan.init (cinv_init n W hW sdeps fl res₀)
     (fsteps_of_cleanSteps P fl evs _ s hr) hw hscan
   intro t ht
-  rcases complete_of_cinv n W sdeps fl hlt s _ hc (fun w hw => ⟨0, hq w hw⟩) t ht with h | h
+  rcases complete_of_cinv n W sdeps fl hlt s _ hc (fun w hw => Or.inl ⟨0, hq w hw⟩) t ht with h | h
   · exact h
   · -- nothing failed in a failure-free history
     have hf := scanFold_failedT_clean (V := V) sdeps (kgOf fl) evs Scan.init (cleanSteps_all_clean P fl evs _ s hr)
